@@ -42,6 +42,10 @@ func (s *Server) patchHandlerFunc(w http.ResponseWriter, r *http.Request) {
 	oldQuery := removeQuery(origQuery, "nowMS")
 	oldQuery = removeQuery(oldQuery, "nowDate")
 	mpdPath := mpdPathFromPatchPath(r.URL.Path)
+	if !strings.HasSuffix(mpdPath, ".mpd") { // Only MPDs can be patched (a segment would be written to the recorder below)
+		http.Error(w, "not a patch path", http.StatusNotFound)
+		return
+	}
 	r.URL.Path = mpdPath
 	r.URL.RawQuery = oldQuery
 	s.livesimHandlerFunc(old, r)
